@@ -21,7 +21,7 @@ Definition okl (sc : float) (a e : list float) := all_close 0x1.12e0be826d695p-3
 def correspond(ctx):
     rng, tier = ctx["rng"], ctx["tier"]
     npr = rng.nprng()
-    n = 40 if tier == "quick" else 400
+    n = 40 if tier == "quick" else 1600
     cases, meta = [], []
     for _ in range(n):
         R, C = rng.randint(4, 24), rng.randint(4, 24)
